@@ -220,7 +220,7 @@ def check(R, F, P, cfg):
         if not flag_true:
             continue
         n_ref += 1
-        muts = [n for n in p.events if n.ci["k"] == "call" and n.ci["npath"] in MUTATORS]
+        muts = effect_calls(p.events)
         usites = [n for n in p.events if n.ci.get("ukind") in U_KINDS]
         R.inst("R12.4", "try_unwrap-refusal:%s" % short(strip(flag_true[0][1])[1]), not muts and not usites,
                "refusal path [%s]: mutators executed: %s; callbacks: %s" % (p.describe()[:200], [short(n.ci["npath"]) for n in muts], [n.ci.get("ukind") for n in usites]),
